@@ -53,7 +53,14 @@ func c12Cases(seed int64) []c12Case {
 	add("lossless 256x200 regions m4 q75", encBytes(imgs.Make(256, 200, "regions4", "opaque", seed), ll(4, 75)))
 	add("lossless 320x320 gradient m6 q100", encBytes(imgs.Make(320, 320, "gradient", "opaque", seed), ll(6, 100)))
 	add("lossless 256x200 many m2 q50", encBytes(imgs.Make(256, 200, "many", "binary", seed), ll(2, 50)))
+	// cost ties: flat tiles next to textured ones, correlated ramps (tie-breaking must not depend on
+	// where a worker's range starts)
+	add("lossless 96x96 tiebands m4 q75", encBytes(imgs.Make(96, 96, "tiebands", "opaque", seed), ll(4, 75)))
+	add("lossless 200x136 ramptex m4 q75", encBytes(imgs.Make(200, 136, "ramptex", "opaque", seed), ll(4, 75)))
+	add("lossless 256x256 ramptex m6 q90", encBytes(imgs.Make(256, 256, "ramptex", "opaque", seed), ll(6, 90)))
 	if c12Thorough {
+		add("lossless 400x300 ramptex m2 q50", encBytes(imgs.Make(400, 300, "ramptex", "opaque", seed), ll(2, 50)))
+		add("lossless 333x217 tiebands m6 q100", encBytes(imgs.Make(333, 217, "tiebands", "opaque", seed), ll(6, 100)))
 		add("lossless 517x389 regions m4 q90", encBytes(imgs.Make(517, 389, "regions4", "opaque", seed), ll(4, 90)))
 		add("lossless 517x389 patchwork m6 q100", encBytes(imgs.Make(517, 389, "patchwork", "binary", seed), ll(6, 100)))
 		add("lossless 400x300 c16 m3 q25", encBytes(imgs.Make(400, 300, "c16", "opaque", seed), ll(3, 25)))
@@ -131,7 +138,7 @@ func vecName(def int, sites map[string]int) string {
 func init() {
 	fw.Register(&fw.Check{
 		ID: "C12", Level: "exploration", Shards: shards16,
-		Rule:   "every runtime.GOMAXPROCS(0) call site found in the current tree is hooked (13 today); for 12 (thorough 19: larger pictures with several chunks per worker) (picture, options) cases large enough for every parallel threshold: the all-ones vector (reference), every single site deviating to each of {2,3,5,16}, every uniform vector n=2..16 (thorough 2..33; what a real GOMAXPROCS value produces), every pair of sites deviating to {2,5}; executed under the deterministic default schedule with pools that never reuse, so the result is a function of the vector alone; distinct = distinct (case, vector)",
+		Rule:   "every runtime.GOMAXPROCS(0) call site found in the current tree is hooked (13 today); for 15 (thorough 24: larger pictures with several chunks per worker) (picture, options) cases large enough for every parallel threshold: the all-ones vector (reference), every single site deviating to each of {2,3,5,16}, every uniform vector n=2..16 (thorough 2..33; what a real GOMAXPROCS value produces), every pair of sites deviating to {2,5}; executed under the deterministic default schedule with pools that never reuse, so the result is a function of the vector alone; distinct = distinct (case, vector)",
 		Assume: []string{"default (non-preempted) schedule: schedule dependence is C10's subject", "pools never reuse: history dependence is C11's subject", "GOMAXPROCS above 16 (thorough 33) is not run"},
 		Run: func(e *fw.Env, r *fw.Result) {
 			c12Thorough = !e.Quick()
